@@ -251,6 +251,10 @@ def step (s : DState) (line : String) : DState × String :=
   | ["q.len"] => ({ s with specOut := "q.len " ++ toString s.fifo.length }, "q.len " ++ toString s.q.len)
   | ["q.isempty"] =>
     ({ s with specOut := "q.isempty " ++ showBool s.fifo.isEmpty }, "q.isempty " ++ showBool s.q.isEmpty)
+  | ["q.rt", _] =>
+    -- a queue rebuilt from this one (list, text or JSON form) holds the same orders
+    ({ s with specOut := "q.rt ok " ++ showList showOrder (canonSort s.fifo) ++ " " ++ toString s.fifo.length },
+     "q.rt ok " ++ showList showOrder (canonSort s.q.toVec) ++ " " ++ toString s.q.len)
   | ["q.tovec"] =>
     ({ s with specOut := "q.tovec " ++ showList showOrder (canonSort s.fifo) },
      "q.tovec " ++ showList showOrder (canonSort s.q.toVec))
@@ -360,6 +364,7 @@ def step (s : DState) (line : String) : DState × String :=
     match arrange s.lvl l with
     | some os =>
       let lvl' := if kind == "data" || kind == "serde" || kind == "text" || kind == "lying-data" || kind == "lying-serde" || kind == "lying-text"
+          || kind == "serde-value" || kind == "serde-reader" || kind == "serde-escaped"
         then Level.fromOrders s.lvl.price os
         else Level.fromSnapshot { price := s.lvl.price, vis := s.lvl.vis, hid := s.lvl.hid, cnt := s.lvl.cnt, orders := os }
       ({ s with lvl := lvl' }, "rebuild ok")
